@@ -759,8 +759,6 @@ def shrink(ctx, case, clause):
 def signature(case, clause, obs):
     """short stable description of what fails"""
     specs = case['mods'] + case.get('dyn', [])
-    if clause == 'writes_skipped_after_comm_failure':
-        return 'C15:writes_skipped_after_comm_failure'      # the clause itself is the class (decided by the Lean judge)
     if clause == 'attached_ready':
         failed = {e[1] for e in obs['errors'] if e[0] == 'init'}
         inits = set()
@@ -802,11 +800,14 @@ META = {
                   'first polls): write_faults_lose_no_write (writeInitParams hands every configured value to its write method '
                   'whatever any of them raises), startup_sequence_complete, no_write_after_first_poll (FULL: no configured value '
                   'is written after the first poll of its module - every schedule, any faults; uses the proved invariant '
-                  'startup_groupsOk: no module is registered twice for polling), writes_before_first_poll_partial (exactly once, '
-                  'for threads whose initial reads meet no communication failure).  NOT proved, kept as statements: '
-                  'init_order_once (full), bad_attachment_reported first half, writes_before_first_poll against the Spec\'s module '
-                  'list (false on the code that exists: recorded finding comm_failure_skips_writes), shutdown_order against the '
-                  'declared attachments; for these the evidence is differential: the real Server._processCfg + '
+                  'startup_groupsOk: no module is registered twice for polling), writes_before_first_poll_partial (exactly once and '
+                  'before the first poll of the module, ANY faults - communication failures in initial reads / first polls '
+                  'included: the repaired __pollThread calls writeInitParams once more behind a start-up sequence that was broken '
+                  'off; comm_failure_writes_made_up, unrepaired_prologue_skips_writes, repair_changes_only_broken_off_rounds).  '
+                  'NOT proved, kept as statements: init_order_once (full), bad_attachment_reported first half, '
+                  'writes_before_first_poll against the Spec\'s module list (missing: the link between the configuration and '
+                  'the module objects / poll thread membership), shutdown_order against the declared attachments; for these '
+                  'the evidence is differential: the real Server._processCfg + '
                   'SecNode.shutdown_modules run with instrumented module classes (fault injection included) under the '
                   'deterministic scheduler on all attachment graphs up to 4 modules (thorough: all DAGs on 5 + sampled cyclic '
                   'graphs), the model predicts every log exactly, and the Lean monitors judge every implementation log.',
@@ -822,8 +823,8 @@ META = {
     ],
     'modelled_not_verified': [
         'Module.__init__ (property/parameter configuration) — only "mandatory attachment without value" is modelled',
-        'the poll loop after the first polls (only the first poll of each module in the main loop after a broken-off start-up '
-        'sequence is modelled); reconnect callbacks',
+        'the poll loop after the first polls (only the late writeInitParams and the first poll of each module in the main loop '
+        'after a broken-off start-up sequence are modelled); reconnect callbacks',
         'Dispatcher, interfaces, daemonising, signal handling, restart',
     ],
     'assumptions': ['Pinatas are declared statically and have no attachments of their own',
